@@ -39,6 +39,10 @@ type hsPlan struct {
 	// (0 = the code's). The exchange must settle on the lower of the two announcements on both ends - or fail on both.
 	GenC int `json:"gen_client,omitempty"`
 	GenS int `json:"gen_server,omitempty"`
+	// Twin > 1: that many sessions between the same two processes are established at the same time; they share
+	// the client's ShareMemoryPathPrefix (one buffer region, as the sessions of a session manager do) and have their
+	// own queues. No fault is injected in these runs.
+	Twin int `json:"twin,omitempty"`
 }
 
 type hsMmap struct {
@@ -91,7 +95,12 @@ func (hsScenario) Gen(r *Rng, tier string, opts map[string]string) interface{} {
 			p.GenS, p.GenC = r.Pick(4, 9), r.Pick(4, 9)
 		}
 	}
+	if r.Chance(1, 10) {
+		p.Twin = 2 + r.Intn(2)
+		p.Fault, p.MmapFail, p.Stale = nil, nil, false
+	}
 	if v := opts["fault_k"]; v != "" {
+		p.Twin = 0
 		f := &hsFault{Kind: "freeze"}
 		fmt.Sscanf(v, "%d", &f.K)
 		fmt.Sscanf(opts["fault_proc"], "%d", &f.Proc)
@@ -132,6 +141,11 @@ func (hsScenario) Shrink(plan interface{}) []interface{} {
 		q.GenC, q.GenS = 0, 0
 		out = append(out, q)
 	}
+	if p.Twin > 2 {
+		q := clone()
+		q.Twin = 2
+		out = append(out, q)
+	}
 	return out
 }
 
@@ -146,6 +160,9 @@ func (hsScenario) Base(plan interface{}) interface{} {
 
 func (hsScenario) Sweep(plan interface{}, base *RunRecord) []interface{} {
 	var out []interface{}
+	if plan.(*hsPlan).Twin > 1 {
+		return nil // concurrent-session plans carry no fault
+	}
 	for proc := 0; proc < 2; proc++ {
 		n := int(base.Counters[fmt.Sprintf("hs.sock_ops_%d", proc)])
 		for k := 0; k <= n; k++ {
@@ -208,6 +225,10 @@ func (hsScenario) Run(s *simrt.Sim, plan interface{}, opts map[string]string) (*
 		}
 	}
 	main := func() {
+		if p.Twin > 1 {
+			hsTwin(s, k, p, pc, ps, dir)
+			return
+		}
 		confC, confS := p.Cfg.config(dir, "c"), p.Cfg.config(dir, "s")
 		confC.InitializeTimeout = time.Duration(p.InitTimeoutMs) * time.Millisecond
 		confS.InitializeTimeout = confC.InitializeTimeout
@@ -279,69 +300,7 @@ func (hsScenario) Run(s *simrt.Sim, plan interface{}, opts map[string]string) (*
 		switch {
 		case ok0 && ok1:
 			simrt.Count("probe.hs_both_ok", 1)
-			cli, srv := sess[0], sess[1]
-			want := uint8(2)
-			if memfd {
-				// what each side announced: its generation if the library consulted it, else this build's own
-				annC, annS := int(maxSupportProtoVersion), int(maxSupportProtoVersion)
-				if pc.ProtoGenSeen {
-					annC = pc.ProtoGen
-				}
-				if ps.ProtoGenSeen {
-					annS = ps.ProtoGen
-				}
-				want = uint8(minInt(annC, annS))
-				if annC != annS {
-					simrt.Count("probe.hs_generations_differ_both_ok", 1)
-				}
-			}
-			if cli.communicationVersion != want || srv.communicationVersion != want {
-				simrt.FailTagged("C12.version", tags, "negotiated versions: client %d, server %d, expected the lower common version %d on both", cli.communicationVersion, srv.communicationVersion, want)
-				return
-			}
-			// the very same buffer memory: write through the client's mapping, read through the server's
-			buf, err := cli.bufferManager.allocShmBuffer(8)
-			if err != nil {
-				simrt.FailTagged("C12.alloc", tags, "allocation on a fresh session failed: %v", err)
-				return
-			}
-			copy(buf.data, []byte{0xde, 0xad, 0xbe, 0xef, 1, 2, 3, 4})
-			buf.writeIndex = 8
-			buf.update()
-			sl, err := srv.bufferManager.readBufferSlice(buf.offsetInShm)
-			if err != nil || sl.size() != 8 || string(sl.data[:8]) != string([]byte{0xde, 0xad, 0xbe, 0xef, 1, 2, 3, 4}) {
-				simrt.FailTagged("C12.memory_identity", tags, "bytes written through the client's buffer mapping are not visible through the server's mapping at offset %d (err %v)", buf.offsetInShm, err)
-				return
-			}
-			if &cli.bufferManager.mem[0] == &srv.bufferManager.mem[0] {
-				simrt.Count("probe.hs_shared_manager_object", 1)
-			}
-			srv.bufferManager.recycleBuffer(sl)
-			if len(cli.bufferManager.lists) != len(srv.bufferManager.lists) {
-				simrt.FailTagged("C12.layout", tags, "client sees %d size classes, server %d", len(cli.bufferManager.lists), len(srv.bufferManager.lists))
-				return
-			}
-			for i := range cli.bufferManager.lists {
-				a, b := cli.bufferManager.lists[i], srv.bufferManager.lists[i]
-				if *a.cap != *b.cap || *a.capPerBuffer != *b.capPerBuffer || a.bufferRegionOffsetInShm != b.bufferRegionOffsetInShm {
-					simrt.FailTagged("C12.layout", tags, "size class %d differs between the two ends", i)
-					return
-				}
-			}
-			// queues are cross-wired
-			e1 := queueElement{seqID: 7, offsetInShmBuf: 11, status: 13}
-			if err := cli.queueManager.sendQueue.put(e1); err != nil {
-				simrt.FailTagged("C12.queue", tags, "put on the client's send queue: %v", err)
-				return
-			}
-			if got, err := srv.queueManager.recvQueue.pop(); err != nil || got != e1 {
-				simrt.FailTagged("C12.queue_wiring", tags, "what the client enqueued on its send queue did not come out of the server's receive queue (%+v, %v)", got, err)
-				return
-			}
-			e2 := queueElement{seqID: 8, offsetInShmBuf: 12, status: 14}
-			_ = srv.queueManager.sendQueue.put(e2)
-			if got, err := cli.queueManager.recvQueue.pop(); err != nil || got != e2 {
-				simrt.FailTagged("C12.queue_wiring", tags, "what the server enqueued on its send queue did not come out of the client's receive queue (%+v, %v)", got, err)
+			if !hsCheckPair(pc, ps, sess[0], sess[1], memfd, tags, true) {
 				return
 			}
 		case ok0 != ok1 && alive(0) && alive(1):
@@ -423,4 +382,180 @@ func (hsScenario) Run(s *simrt.Sim, plan interface{}, opts map[string]string) (*
 		}
 	}
 	return pm, main
+}
+
+// hsCheckPair: both ends report success - they must have settled on the lower common version and must really share
+// the buffer and queue memory (checked by writing through one mapping and reading through the other).
+func hsCheckPair(pc, ps *simrt.Proc, cli, srv *Session, memfd bool, tags map[string]string, queues bool) bool {
+	want := uint8(2)
+	if memfd {
+		// what each side announced: its generation if the library consulted it, else this build's own
+		annC, annS := int(maxSupportProtoVersion), int(maxSupportProtoVersion)
+		if pc.ProtoGenSeen {
+			annC = pc.ProtoGen
+		}
+		if ps.ProtoGenSeen {
+			annS = ps.ProtoGen
+		}
+		want = uint8(minInt(annC, annS))
+		if annC != annS {
+			simrt.Count("probe.hs_generations_differ_both_ok", 1)
+		}
+	}
+	if cli.communicationVersion != want || srv.communicationVersion != want {
+		simrt.FailTagged("C12.version", tags, "negotiated versions: client %d, server %d, expected the lower common version %d on both", cli.communicationVersion, srv.communicationVersion, want)
+		return false
+	}
+	// the very same buffer memory: write through the client's mapping, read through the server's
+	buf, err := cli.bufferManager.allocShmBuffer(8)
+	if err != nil {
+		simrt.FailTagged("C12.alloc", tags, "allocation on a fresh session failed: %v", err)
+		return false
+	}
+	copy(buf.data, []byte{0xde, 0xad, 0xbe, 0xef, 1, 2, 3, 4})
+	buf.writeIndex = 8
+	buf.update()
+	sl, err := srv.bufferManager.readBufferSlice(buf.offsetInShm)
+	if err != nil || sl.size() != 8 || string(sl.data[:8]) != string([]byte{0xde, 0xad, 0xbe, 0xef, 1, 2, 3, 4}) {
+		simrt.FailTagged("C12.memory_identity", tags, "bytes written through the client's buffer mapping are not visible through the server's mapping at offset %d (err %v)", buf.offsetInShm, err)
+		return false
+	}
+	if &cli.bufferManager.mem[0] == &srv.bufferManager.mem[0] {
+		simrt.Count("probe.hs_shared_manager_object", 1)
+	}
+	srv.bufferManager.recycleBuffer(sl)
+	if len(cli.bufferManager.lists) != len(srv.bufferManager.lists) {
+		simrt.FailTagged("C12.layout", tags, "client sees %d size classes, server %d", len(cli.bufferManager.lists), len(srv.bufferManager.lists))
+		return false
+	}
+	for i := range cli.bufferManager.lists {
+		a, b := cli.bufferManager.lists[i], srv.bufferManager.lists[i]
+		if *a.cap != *b.cap || *a.capPerBuffer != *b.capPerBuffer || a.bufferRegionOffsetInShm != b.bufferRegionOffsetInShm {
+			simrt.FailTagged("C12.layout", tags, "size class %d differs between the two ends", i)
+			return false
+		}
+	}
+	if !queues {
+		return true // sessions of one process share the buffer region, every session has its own queues
+	}
+	// queues are cross-wired
+	e1 := queueElement{seqID: 7, offsetInShmBuf: 11, status: 13}
+	if err := cli.queueManager.sendQueue.put(e1); err != nil {
+		simrt.FailTagged("C12.queue", tags, "put on the client's send queue: %v", err)
+		return false
+	}
+	if got, err := srv.queueManager.recvQueue.pop(); err != nil || got != e1 {
+		simrt.FailTagged("C12.queue_wiring", tags, "what the client enqueued on its send queue did not come out of the server's receive queue (%+v, %v)", got, err)
+		return false
+	}
+	e2 := queueElement{seqID: 8, offsetInShmBuf: 12, status: 14}
+	_ = srv.queueManager.sendQueue.put(e2)
+	if got, err := cli.queueManager.recvQueue.pop(); err != nil || got != e2 {
+		simrt.FailTagged("C12.queue_wiring", tags, "what the server enqueued on its send queue did not come out of the client's receive queue (%+v, %v)", got, err)
+		return false
+	}
+	return true
+}
+
+// hsTwin: several sessions between the same two processes established concurrently (shared buffer region).
+func hsTwin(s *simrt.Sim, k *ssys.Kernel, p *hsPlan, pc, ps *simrt.Proc, dir string) {
+	n := p.Twin
+	memfd := p.Cfg.MemFd
+	tags := map[string]string{"mapping": "file", "twin": "yes"}
+	if memfd {
+		tags["mapping"] = "memfd"
+	}
+	cli, srv := make([]*Session, n), make([]*Session, n)
+	errC, errS := make([]error, n), make([]error, n)
+	hs := make(chan int, 2*n)
+	start := simrt.Now()
+	timeout := time.Duration(p.InitTimeoutMs) * time.Millisecond
+	for i := 0; i < n; i++ {
+		i := i
+		confC, confS := p.Cfg.config(dir, "c"), p.Cfg.config(dir, "s")
+		confC.QueuePath += fmt.Sprintf("_%d", i)
+		confS.QueuePath += fmt.Sprintf("_%d", i)
+		confC.InitializeTimeout, confS.InitializeTimeout = timeout, timeout
+		addrC, addrS := fmt.Sprintf("@hs-c%d", i), "@hs-s"
+		if p.Transport == "tcp" {
+			addrC, addrS = fmt.Sprintf("127.0.0.1:4000%d", i+1), "127.0.0.1:6666"
+		}
+		fdC, fdS := k.SocketPair(pc, ps, p.Transport, addrC, addrS)
+		connC, connS := simnet.WrapFd(fdC), simnet.WrapFd(fdS)
+		simrt.GoProc(ps, "server-handshake", func() {
+			srv[i], errS[i] = Server(connS, confS)
+			if errS[i] != nil {
+				_ = connS.Close()
+			}
+			simrt.Send(hs, i)
+		})
+		simrt.GoProc(pc, "client-handshake", func() {
+			cli[i], errC[i] = newSession(confC, connC, true)
+			if errC[i] != nil {
+				_ = connC.Close()
+			}
+			simrt.Send(hs, i)
+		})
+	}
+	bound := simrt.NewTimer(timeout + 20*time.Second)
+	for got := 0; got < 2*n; got++ {
+		if i, _, _ := simrt.Select(false, simrt.RecvCase(hs), simrt.RecvCase(bound.C)); i != 0 {
+			simrt.FailTagged("C12.hang", tags, "%d concurrent handshakes: not every session constructor has returned %v after it was called (InitializeTimeout %v)", n, simrt.Now()-start, timeout)
+			return
+		}
+	}
+	bound.Stop()
+	for i := 0; i < n; i++ {
+		okC, okS := errC[i] == nil && cli[i] != nil, errS[i] == nil && srv[i] != nil
+		switch {
+		case okC && okS:
+			simrt.Count("probe.hs_twin_both_ok", 1)
+			if !hsCheckPair(pc, ps, cli[i], srv[i], memfd, tags, true) {
+				return
+			}
+		case okC != okS:
+			simrt.FailTagged("C12.one_sided", tags, "session %d of %d concurrent ones: establishment succeeded on one end only (client error %v, server error %v)", i, n, errC[i], errS[i])
+			return
+		}
+	}
+	// the sessions share one buffer region: what is written through any client session's mapping must be visible
+	// through every server session's mapping
+	for i := 0; i < n; i++ {
+		for j := 0; j < n; j++ {
+			if i != j && cli[i] != nil && srv[j] != nil && errC[i] == nil && errS[j] == nil && cli[j] != nil && errC[j] == nil {
+				if !hsCheckPair(pc, ps, cli[i], srv[j], memfd, map[string]string{"mapping": tags["mapping"], "twin": "cross"}, false) {
+					return
+				}
+			}
+		}
+	}
+	for i := 0; i < n; i++ {
+		if cli[i] != nil {
+			_ = cli[i].Close()
+		}
+		if srv[i] != nil {
+			_ = srv[i].Close()
+		}
+	}
+	simrt.Sleep(5 * time.Second)
+	for pi, pr := range []*simrt.Proc{pc, ps} {
+		c := k.CensusOf(pr)
+		var socks []string
+		for _, fd := range c.SimFds {
+			if kind := k.FdKind(fd); kind != "epoll" {
+				socks = append(socks, fmt.Sprintf("%d:%s", fd, kind))
+			}
+		}
+		if len(socks) > 0 || len(c.RealFds) > 0 || c.Mappings > 0 {
+			simrt.FailTagged("C12.resource_left", tags, "the %s process still holds descriptors %v, memfds %v, %d mapping(s) after %d concurrent handshakes and Close", []string{"client", "server"}[pi], socks, c.RealFds, c.Mappings, n)
+			return
+		}
+	}
+	if ents, _ := os.ReadDir(dir); len(ents) > 0 {
+		nm := []string{}
+		for _, e := range ents {
+			nm = append(nm, e.Name())
+		}
+		simrt.FailTagged("C12.resource_left", tags, "files left behind in the shared-memory directory: %v", nm)
+	}
 }
